@@ -158,6 +158,63 @@ theorem prov_preprocess_params_complete (passed : String → PVal) (computed : P
     rw [dget_dset_other _ _ _ _ hne, dget_dupdate_map extraVal k extraKeys]
     simp [hk]
 
+/-- **The record names exactly the parameters of this call — nothing foreign, nothing stale**: for
+every method and every call, the keys of `parameters`, in order, are the generic keys recorded by
+`__init__`, then the parameters of that method's `run()`, then `command`; for `preprocess_ts` they
+are its recorded keywords, then the extra keywords of this call, then `command`.  So a key in the
+record is always a parameter of the function called (or an option passed to it): no key of another
+method or of an earlier call can appear. -/
+theorem prov_params_exact :
+    (∀ mi ∈ methods, ∀ (passed : String → PVal) (normPop : PVal → PVal),
+        dkeys (dateParameters initRecorded mi passed normPop) = initRecorded ++ mi.runParams ++ ["command"]) ∧
+    (∀ (passed : String → PVal) (computed : PVal) (extraKeys : List String) (extraVal : String → PVal),
+        extraKeys.Nodup → (∀ k ∈ extraKeys, k ≠ "command" ∧ k ∉ preprocessRecorded.map Prod.fst) →
+        dkeys (preprocessParameters preprocessRecorded preprocessRecordsVarKw passed computed extraKeys extraVal)
+          = preprocessRecorded.map Prod.fst ++ extraKeys ++ ["command"]) := by
+  constructor
+  · intro mi hmi passed normPop
+    have hnd : ∀ mi ∈ methods, (initRecorded ++ mi.runParams ++ ["command"]).Nodup := by decide +kernel
+    have h := hnd mi hmi
+    rw [List.nodup_append] at h
+    obtain ⟨h12, _, hc⟩ := h
+    rw [List.nodup_append] at h12
+    obtain ⟨h1, h2, hdis⟩ := h12
+    simp only [dateParameters]
+    have e1 := dkeys_dupdate_map (fun k => if k = "population_size" then normPop (passed k) else passed k)
+      initRecorded [] h1 (by simp [dkeys])
+    have e2 := dkeys_dupdate_map (fun k => resolve mi passed (lookupD k mi.runMap)) mi.runParams
+      (dupdate [] (initRecorded.map (fun k => (k, if k = "population_size" then normPop (passed k) else passed k))))
+      h2 (by rw [e1]; intro k hk hm; exact hdis k (by simpa [dkeys] using hm) k hk rfl)
+    rw [dkeys_dset_new, e2, e1]
+    · simp [dkeys]
+    · rw [e2, e1]
+      intro hm
+      exact hc "command" (by simpa [dkeys] using hm) "command" (by simp) rfl
+  · intro passed computed extraKeys extraVal hnd hx
+    have hvar : preprocessRecordsVarKw = true := by decide +kernel
+    have hid : ∀ kv ∈ preprocessRecorded, kv.1 = kv.2 := by decide +kernel
+    have hrn : (preprocessRecorded.map Prod.fst).Nodup := by decide +kernel
+    have hcmd : "command" ∉ preprocessRecorded.map Prod.fst := by decide +kernel
+    have hnamed : preprocessRecorded.map (fun kv => (kv.1, preprocessLocal passed computed kv.2))
+        = (preprocessRecorded.map Prod.fst).map (fun k => (k, preprocessLocal passed computed k)) := by
+      rw [List.map_map]
+      apply List.map_congr_left
+      intro kv hkv
+      simp [hid kv hkv]
+    simp only [preprocessParameters, hvar, if_true, hnamed]
+    have e1 := dkeys_dupdate_map (fun k => preprocessLocal passed computed k) (preprocessRecorded.map Prod.fst) []
+      hrn (by simp [dkeys])
+    have e2 := dkeys_dupdate_map extraVal extraKeys
+      (dupdate [] ((preprocessRecorded.map Prod.fst).map (fun k => (k, preprocessLocal passed computed k))))
+      hnd (by rw [e1]; intro k hk hm; exact (hx k hk).2 (by simpa [dkeys] using hm))
+    rw [dkeys_dset_new, e2, e1]
+    · simp [dkeys]
+    · rw [e2, e1]
+      intro hm
+      rcases List.mem_append.mp hm with h | h
+      · exact hcmd (by simpa [dkeys] using h)
+      · exact (hx "command" h).1 rfl
+
 /-- **Which public keyword parameters never reach the record** (exact lists, regenerated).
 Of `EstimationMethod.__init__` (the parameters `date()` forwards): `priors` (finding: a
 user-supplied prior replaces `population_size` but leaves no trace), the return-shape switches
